@@ -114,7 +114,11 @@ def run_hooks(ctx):
     genlikes = [x for x in made]
     _hooks["unwrap"] = lambda box: wrap(box.payload)
 
+    hide_outer = t.choose(3) == 0
+
     def elab(frame, next_inner):
+        if hide_outer:
+            frame.hide = True
         if elab_mode == 0:
             return None
         if elab_mode == 1:
@@ -159,6 +163,21 @@ def run_hooks(ctx):
                     % (ctx.case, f.funcname, type(g).__name__, type(o).__name__),
                     ctx.case,
                 )
+    # extract_outermost(x) is the first frame of extract(x), hidden or not
+    for x in (og, root):
+        sx = stackscope.extract(x)
+        try:
+            fo = stackscope.extract_outermost(x)
+        except Exception as e:
+            raise Violation("c16_outermost_raises", "hooks: extract_outermost(%s) raised %r although extract() has %d frames" % (type(x).__name__, e, len(sx.frames)), ctx.case)
+        f0 = sx.frames[0]
+        if fo.pyframe is not f0.pyframe or fo.hide != f0.hide or fo.lineno != f0.lineno or fo.origin is not f0.origin:
+            raise Violation(
+                "c16_outermost_differs",
+                "hooks: extract_outermost(%s) is frame %s (hide=%r), extract().frames[0] is %s (hide=%r)"
+                % (type(x).__name__, fo.funcname, fo.hide, f0.funcname, f0.hide),
+                ctx.case,
+            )
     ctx.stat("c16_hook_frames_checked", seen)
     ctx.cover(("c16hooks", how, elab_mode, tuple(type(x).__name__ for x in payload), tuple(type(x).__name__ for x in repl)))
     ctx.log("hooks", how, elab_mode, len(st.frames), seen)
